@@ -464,6 +464,13 @@ func makeBytesArshaler(t reflect.Type, fncs *arshaler) *arshaler {
 	return fncs
 }
 
+// hasLegacyNumberPrefix reports whether a quoted number starts like a
+// JSON number. For historical reasons, v1 parsed the rest according to
+// the Go syntax, but it never accepted texts such as "+1", ".5" or "NaN".
+func hasLegacyNumberPrefix(b []byte) bool {
+	return len(b) > 0 && (b[0] == '-' || ('0' <= b[0] && b[0] <= '9'))
+}
+
 func makeIntArshaler(t reflect.Type) *arshaler {
 	var fncs arshaler
 	bits := t.Bits()
@@ -516,7 +523,10 @@ func makeIntArshaler(t reflect.Type) *arshaler {
 				// For historical reasons, v1 parsed a quoted number
 				// according to the Go syntax and permitted a quoted null.
 				// See https://go.dev/issue/75619
-				n, err := strconv.ParseInt(string(val), 10, bits)
+				n, err := int64(0), error(&strconv.NumError{Func: "ParseInt", Num: string(val), Err: strconv.ErrSyntax})
+				if hasLegacyNumberPrefix(val) {
+					n, err = strconv.ParseInt(string(val), 10, bits)
+				}
 				if err != nil {
 					if string(val) == "null" {
 						if !uo.Flags.Get(jsonflags.MergeWithLegacySemantics) {
@@ -615,7 +625,10 @@ func makeUintArshaler(t reflect.Type) *arshaler {
 				// For historical reasons, v1 parsed a quoted number
 				// according to the Go syntax and permitted a quoted null.
 				// See https://go.dev/issue/75619
-				n, err := strconv.ParseUint(string(val), 10, bits)
+				n, err := uint64(0), error(&strconv.NumError{Func: "ParseUint", Num: string(val), Err: strconv.ErrSyntax})
+				if hasLegacyNumberPrefix(val) {
+					n, err = strconv.ParseUint(string(val), 10, bits)
+				}
 				if err != nil {
 					if string(val) == "null" {
 						if !uo.Flags.Get(jsonflags.MergeWithLegacySemantics) {
@@ -738,7 +751,10 @@ func makeFloatArshaler(t reflect.Type) *arshaler {
 				// For historical reasons, v1 parsed a quoted number
 				// according to the Go syntax and permitted a quoted null.
 				// See https://go.dev/issue/75619
-				n, err := strconv.ParseFloat(string(val), bits)
+				n, err := float64(0), error(&strconv.NumError{Func: "ParseFloat", Num: string(val), Err: strconv.ErrSyntax})
+				if hasLegacyNumberPrefix(val) {
+					n, err = strconv.ParseFloat(string(val), bits)
+				}
 				if err != nil {
 					if string(val) == "null" {
 						if !uo.Flags.Get(jsonflags.MergeWithLegacySemantics) {
